@@ -5,10 +5,16 @@ GEN = ["EstructParams", "Cp037", "TextCodec"]
 RULE = ("every byte string of the field's width for packed and zoned items: ALL 256 one-byte and ALL 65536 two-byte buffers for every picture family "
         "of that width (quick: full for odd-digit packed and unsigned zoned, every 4th buffer for the two known-bad families; thorough: full, plus 400k "
         "three-byte buffers), nibble-boundary and random patterns up to 18 (zoned) / 28 (packed) digits, valid encodings with one corrupted nibble. "
+        "BINARY items (kind 3, all five spellings): every two-byte buffer for 9..9(4) and S9..S9(4) (quick: every 8th, each picture at its own "
+        "offset, plus all buffers within 2 of a power of ten or of the ends of the halfword range; thorough: all 65536 each), in-range values "
+        "for every digit count 1..18 (clean: outside the finding), the picture's and the width's boundaries in 2, 4 and 8 bytes, random "
+        "4- and 8-byte buffers, pictures with V. "
         "Non-trivial = all (branch = kind, width, model outcome); distinct = distinct case lines.")
 TRIVIAL_BRANCHES = []
 ASSUMPTIONS = ["decimal default context (precision 28); pictures beyond 28 digits are C02's K-packed-prec finding and are not generated here",
-               "picture text -> (signed, m, n) is C13's concern"]
+               "picture text -> (signed, m, n) is C13's concern",
+               "binary items: the field has the width the decoder derives from the digit count (2, 4, 8 bytes); estruct.calcsize gives signed "
+               "items of 4 or 9 digits the next width (C04's K-signed-binary-size), a buffer of that width is a struct.error"]
 
 
 def width(kind, signed, d):
@@ -59,8 +65,81 @@ def inputs(ctx):
                     n = v % (d + 1)
                     yield f"rand-{kind}-3", dict(kind=kind, signed=signed, m=d - n, n=n, buf=list(v.to_bytes(3, "big")),
                                                  usage=(PACKED[v % 3] if kind == 1 else DISPLAY), nav=False)
+    for item in _binary(ctx, rng, quick):
+        yield item
     for item in longer:
         yield item
+
+
+def bin_width(d):
+    return 2 if d < 5 else 4 if d < 10 else 8
+
+
+def _bin_case(stream, signed, m, n, w, v, rng=None, nav=None):
+    """v: the field's content as an unsigned number below 256**w"""
+    v %= 256 ** w
+    return stream, dict(kind=3, signed=signed, m=m, n=n, buf=list(v.to_bytes(w, "big")),
+                        usage=(rng.choice(BINARY) if rng else BINARY[(v + m + n) % 5]),
+                        nav=(v % 509 == 0) if nav is None else nav)
+
+
+def _binary(ctx, rng, quick):
+    """BINARY items.  Streams: bin-exh-2 (every halfword, pictures without V of 1..4 digits; most of them in the trigger set of
+    K-binary-exceeds-picture), bin-fit (CLEAN: in-range contents, no V - never in the trigger set), bin-edge (the picture's and
+    the width's boundaries), bin-rand (random fullwords and doublewords), bin-size (S9(4) / S9(9) in the width calcsize gives them: always struct.error),
+    bin-v (pictures with V: every case in the trigger set)."""
+    ctx.exhaustive.append("all_2_byte_buffers_binary_9(1..4)_S9(1..4)" + ("(every 8th + boundaries)" if quick else ""))
+    pics2 = [(signed, d) for d in (1, 2, 3, 4) for signed in (False, True)]
+    near = sorted({(x + k) % 65536 for d in range(0, 5) for x in (10 ** d, -10 ** d, 32768, 0) for k in range(-2, 3)})
+    for i, (signed, d) in enumerate(pics2):
+        todo = range(65536) if not quick else sorted(set(range(i, 65536, 8)) | set(near))
+        for v in todo:
+            yield _bin_case("bin-exh-2", signed, d, 0, 2, v)
+    # clean: contents within the picture's digits, no fraction digits
+    for d in range(1, 19):
+        w = bin_width(d)
+        for signed in (False, True):
+            for _ in range(12 if quick else 300):
+                digits = rng.randint(1, d)
+                v = rng.randrange(10 ** digits)
+                if signed and rng.random() < 0.5:
+                    v = -v
+                yield _bin_case("bin-fit", signed, d, 0, w, v, rng, nav=rng.random() < 0.2)
+    # boundaries: the picture's range and the width's range, with and without V
+    for d in range(1, 19):
+        w = bin_width(d)
+        edges = [0, 1, -1, 10 ** d - 1, 10 ** d, -(10 ** d - 1), -(10 ** d), 2 ** (8 * w - 1) - 1, -2 ** (8 * w - 1), 2 ** (8 * w - 1) - 2,
+                 256 ** w - 10 ** d, 10 ** (d - 1), -(10 ** (d - 1))]
+        for signed in (False, True):
+            for n in sorted({0, 1, d // 2, d}):
+                for v in edges:
+                    yield _bin_case("bin-edge", signed, d - n, n, w, v, rng, nav=rng.random() < 0.2)
+    # random fullwords and doublewords
+    for d in range(5, 19):
+        w = bin_width(d)
+        for signed in (False, True):
+            for _ in range(15 if quick else 400):
+                mode = rng.randrange(3)
+                if mode == 0:
+                    v = rng.randrange(256 ** w)
+                elif mode == 1:
+                    v = int.from_bytes(bytes(rng.choice([0x00, 0xFF, 0x7F, 0x80, 0x01, 0x27, 0x0F]) for _ in range(w)), "big")
+                else:
+                    v = rng.randrange(10 ** d) * rng.choice([1, -1]) + rng.choice([0, 10 ** d, -10 ** d])
+                yield _bin_case("bin-rand", signed, d, 0, w, v, rng, nav=rng.random() < 0.1)
+    # signed items of 4 or 9 digits in a buffer of the width estruct.calcsize reports (one size up): struct.error
+    for d, w in ((4, 4), (9, 8)):
+        for _ in range(10 if quick else 100):
+            n = rng.choice([0, 0, rng.randint(0, d)])
+            yield _bin_case("bin-size", True, d - n, n, w, rng.randrange(256 ** w), rng, nav=rng.random() < 0.3)
+    # pictures with V: the result is an int whatever the buffer
+    for d in range(2, 19):
+        w = bin_width(d)
+        for signed in (False, True):
+            for _ in range(10 if quick else 200):
+                n = rng.randint(1, d)
+                v = rng.randrange(256 ** w) if rng.random() < 0.5 else rng.randrange(10 ** rng.randint(1, d)) * rng.choice([1, -1])
+                yield _bin_case("bin-v", signed, d - n, n, w, v, rng, nav=rng.random() < 0.2)
 
 
 def _longer(rng, quick):
